@@ -235,6 +235,9 @@ def blocking_cases(draw):
             'order': list(order), 'nrel': nrel, 'split': split,
             'hold': draw(st.lists(st.booleans(), min_size=nacq,
                                   max_size=nacq)),
+            # which of the concurrent acquirers use blocking=False
+            'nb': draw(st.lists(st.sampled_from([False, False, True]),
+                                min_size=nacq, max_size=nacq)),
             'sched': draw(schedules(60))}
 
 
@@ -245,6 +248,8 @@ def run_blocking(case):
     from ..e2e import patched
     sched = Scheduler(make_policy(case.get('sched')), max_steps=5000)
     got = []
+    refused = []
+    nbs = list(case.get('nb') or [False] * len(case['acq']))
     info = {'blocked': False}
     state = {}
 
@@ -259,9 +264,17 @@ def run_blocking(case):
 
         holders = [len(held)]
 
-        def acquirer(tag, hold):
+        def acquirer(tag, hold, nb=False):
             def run():
-                tok = sem.acquire(tag, True)
+                if nb:
+                    from s3transfer.utils import NoResourcesAvailable
+                    try:
+                        tok = sem.acquire(tag, False)
+                    except NoResourcesAvailable:
+                        refused.append(tag)
+                        return
+                else:
+                    tok = sem.acquire(tag, True)
                 holders[0] += 1
                 if holders[0] > case['cap'] and 'over' not in state:
                     state['over'] = (holders[0], sched.step)
@@ -284,14 +297,23 @@ def run_blocking(case):
                     sched.yield_('between-releases')
             return run
         for k, t in enumerate(case['acq']):
-            sched.spawn(acquirer(TAGS[t], case['hold'][k]), f'acq{k}')
+            sched.spawn(acquirer(TAGS[t], case['hold'][k], nbs[k]),
+                        f'acq{k}')
         for k, lst in enumerate(chunks):
             sched.spawn(releaser(lst), f'rel{k}')
 
     with patched(sched):
         sched.run(main)
-    info['blocked'] = sched.max_blocked >= 1
+    info['blocked'] = sched.max_blocked >= 1 or bool(refused)
     info['nchoices'] = sched.nchoices
+    info['refused'] = len(refused)
+    waited = [f'acq{k}' for k in range(len(nbs))
+              if nbs[k] and f'acq{k}' in sched.cond_waiters]
+    if waited:
+        return (('blocking:nonblocking-acquire-waited',
+                 f'acquire(tag, blocking=False) parked on the condition in '
+                 f'{waited} instead of raising NoResourcesAvailable; '
+                 f'case {case}'), info)
     if sched.deadlock:
         return (('blocking:acquirer-stranded',
                  f'deadlock {sched.deadlock} although every issued token is '
@@ -308,8 +330,8 @@ def run_blocking(case):
     if len(set(got)) != len(got):
         return (('blocking:duplicate-token',
                  f'two acquirers received the same token: {got}'), info)
-    if len(got) != len(case['acq']):
-        return (('blocking:acquirer-missing', f'{got}'), info)
+    if len(got) + len(refused) != len(case['acq']):
+        return (('blocking:acquirer-missing', f'{got} {refused}'), info)
     # tokens per tag are consecutive after the initial ones
     for t in set(case['acq']):
         tag = TAGS[t]
@@ -339,6 +361,20 @@ def systematic_blocking(shard, nshards, visit):
                             'acq': [i % ntag for i in range(nacq)],
                             'order': list(range(ninit))[::-1], 'nrel': 1,
                             'split': 0, 'hold': [hold] * nacq}
+                    # the same scenario with the first (then the last)
+                    # acquirer non-blocking: zero and single preemptions
+                    for nbk in (0, nacq - 1):
+                        nbv = [i == nbk for i in range(nacq)]
+                        b2 = dict(base, nb=nbv)
+                        c0 = dict(b2, sched={'mode': 'preempt', 'at': []})
+                        viol, info = run_blocking(c0)
+                        visit(c0, viol, info)
+                        for i in range(info.get('nchoices', 40)):
+                            for k in (1, 2):
+                                c = dict(b2, sched={'mode': 'preempt',
+                                                    'at': [[i, k]]})
+                                viol, info2 = run_blocking(c)
+                                visit(c, viol, info2)
                     # dry run to learn the number of real choices
                     from ..detsched import Scheduler
                     c0 = dict(base, sched={'mode': 'preempt', 'at': []})
